@@ -192,3 +192,10 @@ Definition sb_decoder (table : list N) : raw_decoder N := {|
     end;
   dfinish := fun _ => (tt, [], None);
 |}.
+
+(* what the helper computes on a single-byte decoder, in closed form (Proofs/SbFacts.v sb_strict_spec,
+   sb_chunk_spec, sb_test_spec): every byte defined -> the characters, else an error *)
+Definition sb_all (table : list N) (l : bytes) : bool :=
+  forallb (fun b => match sb_lookup table b with Some _ => true | None => false end) l.
+Definition sb_chars (table : list N) (l : bytes) : list N :=
+  flat_map (fun b => match sb_lookup table b with Some c => [c] | None => [] end) l.
